@@ -19,7 +19,7 @@ RULE = ('random lineages (depth<=6, and 1.5 % deep ones: 120, 1100 and around ev
         '__parent__ = None or without the attribute; falsy resources) x principal subsets x permission, each decided through ACLHelper, '
         'ACLAuthorizationPolicy, request.has_permission (with and without context argument, with and without a security policy), '
         'security.principals_allowed_by_permission (with / without authorization policy), view_execution_permitted (one secured view / '
-        'a view without permission / no view / a MultiView of sub-views with predicates and permissions of their own); 4 % of the '
+        'a view without permission / no view / the default view '' with the name argument omitted / a MultiView of sub-views with predicates and permissions of their own); 4 % of the '
         'cases carry one malformed item (__acl__ = None, a falsy callable, an ACE that is not a 3-sequence); non-trivial = at '
         'least one ACE in the lineage matches principal AND permission (so the decision is not the default deny); distinct by full case')
 ASSUMPTIONS = ['ACE actions are compared with == against the Allow/Deny constants; principals and requested permissions are str',
@@ -44,7 +44,8 @@ TRUSTED = ['translator harness/c11/translate.py: its PRIMITIVE TABLE (which Pyth
            'security.principals_allowed_by_permission and view_execution_permitted are TRANSLATED (harness/c11/translate_entry.py: '
            'straight-line code over an abstract registry; table in its docstring) and run in real registries by every case '
            '(harness/c11/entry.py); MultiView.match/get_views/__permitted__ are name-blanked pins modelled by view_permitted',
-           'malformed inputs (permits_x in Model/C11.v): hand-written, validated by the correspondence stream only',
+           'malformed inputs (permits_x, principals_allowed_x in Model/C11.v): hand-written extension, related to the regenerated '
+           'loops by C11_malformed_*_vs_generated and validated by a correspondence stream on every route',
            'AllPermissionsList.__iter__/__eq__, ACLPermitsResult/ACLAllowed/ACLDenied (shape-pinned); viewderivers.secured_view / '
            '_secured_view / preserve_view_attrs (name-blanked pins: they make the __permitted__ view_execution_permitted calls); '
            'module- and class-level statements of authorization.py, security.py, location.py (skeleton pin, harness/c11/skeleton.py)']
@@ -259,7 +260,7 @@ def gen_case(rng):
     if r < 0.30:
         # what view_execution_permitted finds under the view name: nothing / a view without permission / a MultiView of
         # two or three sub-views with request_param predicates (holding or not) and permissions of their own (or none)
-        kind = 'none' if r < 0.04 else 'plain' if r < 0.10 else 'multi'
+        kind = 'none' if r < 0.04 else 'plain' if r < 0.09 else 'default' if r < 0.14 else 'multi'
         case['vep'] = {'kind': kind}
         if kind == 'multi':
             case['vep']['subs'] = [[rng.random() < 0.5, rng.choice(PERMS + [None])] for _ in range(rng.choice([2, 2, 3]))]
@@ -345,7 +346,7 @@ def valid(case):
                 return False
         v = case.get('vep')
         if v is not None:
-            if v.get('kind') not in ('none', 'plain', 'multi'):
+            if v.get('kind') not in ('none', 'plain', 'multi', 'default'):
                 return False
             if v['kind'] == 'multi' and not (2 <= len(v['subs']) <= 3 and all(
                     len(x) == 2 and type(x[0]) is bool and (x[1] is None or x[1] in PERMS) for x in v['subs'])):
@@ -392,8 +393,32 @@ def _trunc(case):
     return lin[:k] + [dict(lin[k], aces=lin[k]['aces'][:b['at']])], True
 
 
+def _ace_wire(a):
+    return [{'Allow': 1, 'Deny': 0}.get(a[0], 2), a[1], _perm_wire(a[2])]
+
+
+def _xwire(case):
+    """the malformed lineage as it is (Model/C11.v xloc / xace): 0 = no __acl__, 1 = __acl__ is None or a falsy callable
+    that is not iterable, [[..]] = an ACL in which 9 stands for an ACE that is not a 3-sequence"""
+    b, out = case['bad'], []
+    for k, loc in enumerate(case['lineage']):
+        if loc is None:
+            out.append(0)
+        elif k == b['loc'] and b['kind'] in ('aclnone', 'falsycallable'):
+            out.append(1)
+        elif k == b['loc'] and b['kind'] == 'falsyiterable':
+            out.append([[]])
+        else:
+            aces = [_ace_wire(a) for a in loc['aces']]
+            if k == b['loc']:
+                aces.insert(b['at'], 9)
+            out.append([aces])
+    return out
+
+
 def to_wire(case):
     lin = []
+    orig = case
     if case.get('bad'):
         case = dict(case, lineage=_trunc(case)[0] or [None])
     for k, loc in enumerate(case['lineage']):
@@ -404,16 +429,19 @@ def to_wire(case):
         else:
             lin.append([[[{'Allow': 1, 'Deny': 0}.get(a[0], 2), a[1], _perm_wire(a[2])] for a in loc['aces']]])
     v = case.get('vep')
+    # 'default': view_execution_permitted(context, request) WITHOUT a name: the default view '' (protected by DEFAULT_VIEW_PERM)
     views = case['permission'] if v is None else 0 if v['kind'] == 'none' else 1 if v['kind'] == 'plain' else \
+        entry.DEFAULT_VIEW_PERM if v['kind'] == 'default' else \
         [[1 if ok else 0] + ([q] if q is not None else []) for ok, q in v['subs']]
-    return [lin, list(case['principals']), case['permission'], 1 if case.get('root') == 'missing' else 0, views]
+    return [lin, list(case['principals']), case['permission'], 1 if case.get('root') == 'missing' else 0, views,
+            _xwire(orig) if orig.get('bad') else 0]
 
 
 def from_wire(case, raw):
-    if raw == [['bad']] or len(raw) != 15:
+    if raw == [['bad']] or len(raw) != 18:
         return {'model': ['MODEL-BAD', raw], 'spec': None}
     (dec, allowed, spec_granted, wf, hdec, hallowed, pdec, pallowed, hp_default, hp_nopolicy, pa_noauthz,
-     hp_given, sec_pa, vep, vep_spec) = raw
+     hp_given, sec_pa, vep, vep_spec, xdec, xpa, xspec) = raw
     # the model that is compared with the implementation is the program REGENERATED from the source;
     # the third spec component records whether the hand-written reference model answers the same
     # (always 1 while C11_generated_*_is_model compile)
@@ -424,12 +452,10 @@ def from_wire(case, raw):
     #  (all routes of pyramid/security.py are answered by the REGENERATED gen_has_permission / gen_sec_principals_allowed /
     #   gen_view_execution_permitted; vep_spec = first-match decision for the permission of the view that would run)
     if case.get('bad'):
-        # malformed input: only the permits() routes are observed; a default deny of the well-formed part becomes the
-        # exception raised at the malformed item (C11_malformed_permits_characterised)
-        raises = _trunc(case)[1]
-        fix = lambda d: ['EXC'] if (raises and d == [0]) else d
-        return {'model': [fix(dec), NA, fix(pdec), NA, fix(hp_given), NA, NA, fix(hp_default), NA, NA],
-                'spec': [spec_granted, wf, 1, None]}
+        # malformed input (outside the property): answered by the hand-written extension permits_x / principals_allowed_x
+        # (C11_malformed_*); every route that ends in permits() / principals_allowed_by_permission is observed
+        xs = sorted(xpa[0]) if xpa else ['EXC']
+        return {'model': [xdec, xs, xdec, xs, xdec, xs, NA, xdec, NA, NA], 'spec': [xspec, wf, 1, None]}
     single = case.get('vep') is None
     model = [dec, sorted(allowed), pdec, sorted(pallowed), hp_given, sorted(sec_pa),
              NA if (single and case['permission'] == RESERVED) else vep, hp_default, hp_nopolicy, sorted(pa_noauthz)]
@@ -725,7 +751,15 @@ def run_impl(case):
                 decs.append(['EXC'])
             except Exception as e:
                 decs.append(['EXC', type(e).__name__])
-        return [decs[0], NA, decs[1], NA, decs[2], NA, NA, decs[3], NA, NA]
+        for f in _reporters()[:3]:
+            locs = _build(case)
+            try:
+                sets.append(sorted(str(x) for x in f(locs[0], p)))
+            except (TypeError, ValueError):
+                sets.append(['EXC'])
+            except Exception as e:
+                sets.append(['EXC', type(e).__name__])
+        return [decs[0], sets[0], decs[1], sets[1], decs[2], sets[2], NA, decs[3], NA, NA]
     for f in _deciders(case):
         locs = _build(case)
         try:
